@@ -35,14 +35,14 @@ func C16(r *core.Report) {
 		bufferOwnership(r, "C16.R7", run)
 	}
 	r.Floor("C16.R7", 2)
-	r.Floor("C16.R1", 5)
-	r.Floor("C16.R2", 4)
-	r.Floor("C16.R3", 2)
-	r.Floor("C16.R4", 2)
-	r.Floor("C16.R5", 4)
+	r.Floor("C16.R1", 3)
+	r.Floor("C16.R2", 3)
+	r.Floor("C16.R3", 1)
+	r.Floor("C16.R4", 1)
+	r.Floor("C16.R5", 3)
 	c16HeaderBytesComeFromTheStream(r)
 	c16PieceFilesStartEmpty(r)
-	r.Floor("C16.R6", 3)
+	r.Floor("C16.R6", 2)
 }
 
 // closureName names a literal by the variable it is assigned to ("" when anonymous).
